@@ -60,6 +60,16 @@ func runOne(m *Monitor, c *Case) (stack string) {
 	return ""
 }
 
+// preCase runs 1 case in 40 under a hostile scheduler width (separate PRNG stream: the case itself is unchanged).
+func preCase(m *Monitor, c *Case) {
+	if m.Custom != nil {
+		return
+	}
+	if pr := NewRng(c.Seed, m.ID+"/procs", c.I); pr.P(0.025) {
+		c.setProcs(hostileProcs[pr.Intn(len(hostileProcs))])
+	}
+}
+
 func describe(c *Case) (d any) {
 	if c.Desc == nil {
 		return nil
@@ -75,6 +85,9 @@ func describe(c *Case) (d any) {
 func witnessOf(c *Case, stack string) Witness {
 	if c.history != "" && c.verdict == Violated {
 		c.reason += " [the case was preceded, in the same process, by a hostile call: " + c.history + "]"
+	}
+	if c.procs != 0 && c.verdict == Violated {
+		c.reason += fmt.Sprintf(" [GOMAXPROCS=%d]", c.procs)
 	}
 	return Witness{Property: c.Prop, Tier: c.Tier, Seed: c.Seed, Index: c.I, Class: c.class, Reason: c.reason,
 		Detail: c.failDetail, Case: describe(c), Stack: stack}
@@ -111,7 +124,9 @@ func RunWorker(m *Monitor, tier string, seed, a, b int64, out string) error {
 				c.history = what
 			}
 		}
+		preCase(m, c)
 		stack := runOne(m, c)
+		c.restoreProcs()
 		res.Evaluations++
 		res.Calls += c.calls
 		for _, t := range c.tags {
@@ -187,7 +202,9 @@ func ReplayOne(m *Monitor, tier string, seed, i int64) (Witness, Verdict) {
 			c.history = BeforeCase(m.ID, pr)
 		}
 	}
+	preCase(m, c)
 	stack := runOne(m, c)
+	c.restoreProcs()
 	w := witnessOf(c, stack)
 	if c.verdict == Held {
 		w.Reason = "held"
